@@ -19,6 +19,51 @@ Theorem C13_published_keys_ok :
 Proof. repeat split; vm_compute; reflexivity. Qed.
 Print Assumptions C13_published_keys_ok.
 
+(* The 32-bit key ids of the u-blox interface description for the constants the library publishes (hand-kept oracle,
+   independent of the source: a published constant must denote the documented key). Constants published beyond
+   this list are not judged. *)
+Definition documented_keys : list (string * N) :=
+  [("CFG_NAVSPG_DYNMODEL"%string, 537985057);
+   ("CFG_NAVSPG_FIXMODE"%string, 537985041);
+   ("CFG_NMEA_PROTVER"%string, 546504705);
+   ("CFG_RATE_MEAS"%string, 807469057);
+   ("CFG_RATE_NAV"%string, 807469058);
+   ("CFG_RATE_NAV_PRIO"%string, 539033604);
+   ("CFG_SFCORE_USE_SF"%string, 268959745);
+   ("CFG_SFIMU_IMU_MNTALG_PITCH"%string, 805699630);
+   ("CFG_SFIMU_IMU_MNTALG_ROLL"%string, 805699631);
+   ("CFG_SFIMU_IMU_MNTALG_YAW"%string, 1074135085);
+   ("CFG_SIGNAL_BDS_B1_ENA"%string, 271646733);
+   ("CFG_SIGNAL_BDS_ENA"%string, 271646754);
+   ("CFG_SIGNAL_GAL_E1_ENA"%string, 271646727);
+   ("CFG_SIGNAL_GAL_ENA"%string, 271646753);
+   ("CFG_SIGNAL_GLO_ENA"%string, 271646757);
+   ("CFG_SIGNAL_GLO_L1_ENA"%string, 271646744);
+   ("CFG_SIGNAL_GPS_ENA"%string, 271646751);
+   ("CFG_SIGNAL_GPS_L1CA_ENA"%string, 271646721);
+   ("CFG_SIGNAL_QZSS_ENA"%string, 271646756);
+   ("CFG_SIGNAL_QZSS_L1CA_ENA"%string, 271646738);
+   ("CFG_SIGNAL_QZSS_L1S_ENA"%string, 271646740);
+   ("CFG_SIGNAL_SBAS_ENA"%string, 271646752);
+   ("CFG_SIGNAL_SBAS_L1CA_ENA"%string, 271646725);
+   ("CFG_TP_ALIGN_TO_TOW_TP2"%string, 268763157);
+   ("CFG_TP_LEN_LOCK_TP2"%string, 1074069520);
+   ("CFG_TP_LEN_TP2"%string, 1074069519);
+   ("CFG_TP_PERIOD_LOCK_TP2"%string, 1074069518);
+   ("CFG_TP_PERIOD_TP2"%string, 1074069517);
+   ("CFG_TP_POL_TP2"%string, 268763158);
+   ("CFG_TP_PULSE_DEF"%string, 537198627);
+   ("CFG_TP_PULSE_LENGTH_DEF"%string, 537198640);
+   ("CFG_TP_TIMEGRID_TP2"%string, 537198615);
+   ("CFG_TP_TP2_ENA"%string, 268763154);
+   ("CFG_TP_USE_LOCKED_TP2"%string, 268763156);
+   ("CFG_UART1_BAUDRATE"%string, 1079115777)].
+
+Theorem C13_published_ids_documented :
+  forallb (fun d => existsb (fun kv => String.eqb (fst kv) (fst d) && N.eqb (snd kv) (snd d)) g_published_keys) documented_keys = true.
+Proof. vm_compute; reflexivity. Qed.
+Print Assumptions C13_published_ids_documented.
+
 (* the size tables of the source are the ones the model uses *)
 Theorem C13_size_tables :
   forallb (fun bs => match size_from_bits (fst bs) with Some s => N.eqb s (snd bs) | None => false end) g_size_from_bits = true
